@@ -108,7 +108,9 @@ func newRing(endpoints *resolver.EndpointMap[*endpointState], minRingSize, maxRi
 		// per-endpoint, these entries hash to the same value across address
 		// updates.
 		idx := 0
-		for currentHashes < targetHashes {
+		// Floating point accumulation can leave targetHashes slightly above
+		// scale; never create more entries than the ring size.
+		for currentHashes < targetHashes && len(items) < int(ringSize) {
 			h := xxhash.Sum64String(epInfo.hashKey + "_" + strconv.Itoa(idx))
 			items = append(items, &ringEntry{hash: h, hashKey: epInfo.hashKey, weight: epInfo.originalWeight})
 			idx++
